@@ -13,6 +13,7 @@ pub const G_BACKEND: u32 = 2; // representative elements x directly-typed backen
 pub const G_CONSTRAINT: u32 = 4; // Tr8 x Heap x all 8 constraint sets
 pub const G_STACK: u32 = 8; // inline backends
 pub const G_CORE: u32 = 16; // small representative subset (expensive shapes)
+pub const G_RAW: u32 = 32; // backends with raw parts (Heap, Empty)
 
 pub struct ConfigEntry {
     pub name: &'static str,
@@ -84,10 +85,17 @@ configs! {
     Pl24_Multi:   Pl24,   Multi, dyn Cloneable, G_LAYOUT;
     Pl160_Multi:  Pl160,  Multi, dyn Cloneable, G_LAYOUT;
     // directly typed backends
-    Tr8_Heap:     Tr8,    Heap,   dyn Cloneable, G_BACKEND | G_CORE;
-    Tr24_Heap:    Tr24,   Heap,   dyn Cloneable, G_BACKEND;
-    Pl3_Heap:     Pl3,    Heap,   dyn Cloneable, G_BACKEND;
-    Tr0_Heap:     Tr0,    Heap,   dyn Cloneable, G_BACKEND;
+    Tr8_Heap:     Tr8,    Heap,   dyn Cloneable, G_BACKEND | G_CORE | G_RAW;
+    Tr24_Heap:    Tr24,   Heap,   dyn Cloneable, G_BACKEND | G_RAW;
+    Pl3_Heap:     Pl3,    Heap,   dyn Cloneable, G_BACKEND | G_RAW;
+    Tr0_Heap:     Tr0,    Heap,   dyn Cloneable, G_BACKEND | G_RAW;
+    Tr1_Heap:     Tr1,    Heap,   dyn Cloneable, G_RAW;
+    Tr16_Heap:    Tr16,   Heap,   dyn Cloneable, G_RAW;
+    Tr160_Heap:   Tr160,  Heap,   dyn Cloneable, G_RAW;
+    Pl8_Heap:     Pl8,    Heap,   dyn Cloneable, G_RAW;
+    Tr8_Empty:    Tr8,    any_vec::mem::Empty, dyn Cloneable, G_RAW;
+    Tr0_Empty:    Tr0,    any_vec::mem::Empty, dyn None, G_RAW;
+    Pl3_Empty:    Pl3,    any_vec::mem::Empty, dyn Cloneable + Send + Sync, G_RAW;
     Tr8_Guard:    Tr8,    GuardB, dyn Cloneable, G_BACKEND;
     Tr3_Guard:    Tr3,    GuardB, dyn Cloneable, G_BACKEND;
     Tr8_Fixed:    Tr8,    FixedB, dyn Cloneable, G_BACKEND;
@@ -101,13 +109,13 @@ configs! {
     Pl3_StackN:   Pl3,    StackN<5, 16>,  dyn Cloneable, G_BACKEND | G_STACK;
     Tr0_StackN:   Tr0,    StackN<4, 0>,   dyn Cloneable, G_BACKEND | G_STACK;
     // constraint sweep
-    Tr8_Heap_None:  Tr8, Heap, dyn None,                    G_CONSTRAINT;
-    Tr8_Heap_Send:  Tr8, Heap, dyn Send,                    G_CONSTRAINT;
-    Tr8_Heap_Sync:  Tr8, Heap, dyn Sync,                    G_CONSTRAINT;
-    Tr8_Heap_SS:    Tr8, Heap, dyn Send + Sync,             G_CONSTRAINT;
-    Tr8_Heap_CSend: Tr8, Heap, dyn Cloneable + Send,        G_CONSTRAINT;
-    Tr8_Heap_CSync: Tr8, Heap, dyn Cloneable + Sync,        G_CONSTRAINT;
-    Tr8_Heap_CSS:   Tr8, Heap, dyn Cloneable + Send + Sync, G_CONSTRAINT;
+    Tr8_Heap_None:  Tr8, Heap, dyn None,                    G_CONSTRAINT | G_RAW;
+    Tr8_Heap_Send:  Tr8, Heap, dyn Send,                    G_CONSTRAINT | G_RAW;
+    Tr8_Heap_Sync:  Tr8, Heap, dyn Sync,                    G_CONSTRAINT | G_RAW;
+    Tr8_Heap_SS:    Tr8, Heap, dyn Send + Sync,             G_CONSTRAINT | G_RAW;
+    Tr8_Heap_CSend: Tr8, Heap, dyn Cloneable + Send,        G_CONSTRAINT | G_RAW;
+    Tr8_Heap_CSync: Tr8, Heap, dyn Cloneable + Sync,        G_CONSTRAINT | G_RAW;
+    Tr8_Heap_CSS:   Tr8, Heap, dyn Cloneable + Send + Sync, G_CONSTRAINT | G_RAW;
 }
 
 #[cfg(not(feature = "lib_alloc"))]
